@@ -39,7 +39,8 @@ class CompletingModel(core.Model):
 
 
 def score_trace(model):
-    return {'log': list(model.log), 'timestep': model.systems.timestep, 'running': model.is_running()}
+    return {'log': list(model.log), 'timestep': model.systems.timestep, 'running': model.is_running(),
+            'trace': [r['t'] for r in model.systems.systems['trace'].records]}
 
 
 # ---------------------------------------------------------------------------------------------------------------------
